@@ -2,7 +2,9 @@ package rules
 
 import (
 	"go/ast"
+	"go/constant"
 	"go/token"
+	"go/types"
 
 	"lachk/core"
 )
@@ -55,7 +57,7 @@ func c30TryAcquireInPlace(c *core.Ctx, f *core.FuncInfo) {
 			ok, path := c30Guarded(f, a.Pt, "held."+comp+" + req."+comp+" - max."+comp+" <= 0", name)
 			c.Check(ok, "commit guarded by "+comp+"<=max", "T4 GuardedBy", a.Stmt.Pos(),
 				"processing is updated only on the edge where held."+comp+" + req."+comp+" <= max."+comp,
-				"processing can be updated without held."+comp+" + req."+comp+" <= max."+comp+" having been established: path "+f.DescribePath(path))
+				"processing can be updated without held."+comp+" + req."+comp+" <= max."+comp+" having been established: path "+f.DescribePath(path)+c30WrapHint(f))
 		}
 	}
 	for _, rp := range returnsWith(f, 0, func(e ast.Expr) bool { return isIdentNamed(e, "true") }) {
@@ -64,4 +66,93 @@ func c30TryAcquireInPlace(c *core.Ctx, f *core.FuncInfo) {
 			c.Check(ok, "true only after commit", "T2 Dominates", posOf(rp), "returns true only after committing", "returns true without committing "+short(comp)+": "+f.DescribePath(path))
 		}
 	}
+	c30Refusals(c, f, func(comp string) string { return "max." + comp + " - held." + comp + " - req." + comp + " + 1 <= 0" }, name)
+}
+
+// c30Refusals: a fitting request is granted at once, so tryAcquire may return false only over an edge
+// that establishes, for some component, that the request does not fit (overWant(comp), linear normal
+// form over the roles of name). Its results must be the constants true / false, so that the edges
+// decide the result.
+func c30Refusals(c *core.Ctx, f *core.FuncInfo, overWant func(comp string) string, name func(c30Access) string) {
+	sc := &c30Scope{F: f}
+	var ws []core.LinCmp
+	for _, comp := range []string{"Metric.Num", "Metric.Size"} {
+		ws = append(ws, core.ParseLinCmp(overWant(comp)))
+	}
+	n := 0
+	for _, rp := range f.ReturnPoints() {
+		ret, _ := rp.Node().(*ast.ReturnStmt)
+		var val constant.Value
+		if ret != nil && len(ret.Results) == 1 {
+			val, _ = core.ConstVal(f.Info(), ret.Results[0])
+		}
+		if val == nil || val.Kind() != constant.Bool {
+			c.Undecided("result of tryAcquire is a constant", "T4 GuardedBy", posOf(rp), "the result returned here is not the constant true or false: the edges taken do not decide it")
+			continue
+		}
+		if constant.BoolVal(val) {
+			continue
+		}
+		n++
+		ok, path := f.GuardedBy(rp, func(ft core.Fact) bool {
+			for _, w := range ws {
+				if c30Implies(sc, ft, w, name, 2) {
+					return true
+				}
+			}
+			return false
+		})
+		c.Check(ok, "refusal only when the request does not fit", "T4 GuardedBy", posOf(rp),
+			"false is returned only over an edge establishing that some component of held + request exceeds the capacity",
+			"a request can be refused although it fits: "+f.DescribePath(path))
+	}
+	c.ExpectAtLeast("refusing returns of tryAcquire", n, 1)
+}
+
+// c30Delegates: TryAcquire grants exactly what tryAcquire grants: every result it returns is the result
+// of a tryAcquire call (directly, through a single-definition local, or through a named result that is
+// only ever assigned from such calls).
+func c30Delegates(c *core.Ctx) {
+	f := c.Fn(semT + ".TryAcquire")
+	inner := semT + ".tryAcquire"
+	c.Fn(inner)
+	n := 0
+	for _, rp := range f.ReturnPoints() {
+		n++
+		ret, _ := rp.Node().(*ast.ReturnStmt)
+		ok := false
+		switch {
+		case ret != nil && len(ret.Results) == 1:
+			ok = isCallTo(f, ret.Results[0], inner) != nil
+			if v := varOfRaw(f, ret.Results[0]); !ok && v != nil {
+				ok = c30OnlyFromCalls(f, v, inner)
+			}
+		case ret != nil && len(ret.Results) == 0 && f.Type.Results != nil && len(f.Type.Results.List) == 1 && len(f.Type.Results.List[0].Names) == 1:
+			if v, _ := f.Info().Defs[f.Type.Results.List[0].Names[0]].(*types.Var); v != nil {
+				ok = c30OnlyFromCalls(f, v, inner)
+			}
+		}
+		c.Check(ok, "TryAcquire returns the result of tryAcquire", "T20 WrapperDelegation", posOf(rp),
+			"the result is that of tryAcquire", "TryAcquire returns something other than the result of tryAcquire: a request is granted or refused against a different condition")
+	}
+	c.ExpectAtLeast("returns of TryAcquire", n, 1)
+}
+
+// c30OnlyFromCalls: v is assigned at least once and only from calls of the named function.
+func c30OnlyFromCalls(f *core.FuncInfo, v *types.Var, callee string) bool {
+	n := 0
+	for _, a := range assignsToVar(f, v) {
+		if a.RHS == nil {
+			if _, isSpec := a.Stmt.(*ast.ValueSpec); isSpec {
+				continue
+			}
+			return false
+		}
+		call, ok := ast.Unparen(a.RHS).(*ast.CallExpr)
+		if !ok || calleeName(f, call) != callee {
+			return false
+		}
+		n++
+	}
+	return n > 0
 }
